@@ -197,6 +197,10 @@ pub(crate) trait ReceiverLink: Link + LinkExt {
         section_offset: u64,
     );
 
+    /// Forget the record of a delivery that turned out to be settled from the start
+    /// (pre-settled, or aborted) after some of its frames had been recorded as unsettled
+    fn on_aborted_transfer(&mut self, delivery_tag: &DeliveryTag);
+
     // More than one transfer frames should be hanlded by the
     // `Receiver`
     fn on_complete_transfer<'a, T, P>(
